@@ -405,10 +405,10 @@ pub fn run(ctx: Ctx) -> ! {
         replay(ctx);
     }
     let configs = configs();
-    let (full_depth, reduced_depth) = ctx.pick((3usize, 4usize), (5, 6));
+    let (full_depth, reduced_depth) = ctx.pick((4usize, 5usize), (6, 8));
     let mut total = BfsStats::default();
     let mut per_run = vec![];
-    let budget = ctx.pick(50.0, 1100.0);
+    let budget = ctx.pick(55.0, 1100.0);
     for (name, cond) in configs {
         for (reduced, depth) in [(false, full_depth), (true, reduced_depth)] {
             let m = ClockMachine::new(cond.clone(), reduced);
